@@ -9,7 +9,7 @@ use serde_json::{json, Value};
 use std::collections::BTreeSet;
 
 const CH: [&str; 5] = ["{", "}", ",", "a", "b"];
-const TOK: [&str; 11] = ["{", "}", ",", "p", "-", "1", "2", ">=", "<", "*", "[0-9]"];
+const TOK: [&str; 12] = ["{", "}", ",", "p", "-", "1", "2", ">=", "<", "*", "[0-9]", "["];
 
 const POOL: [&str; 22] = [
     "p-1", "p-2", "p-12", "p-21", "pp-1", "p", "-1", "1", "p-", "p-p-1", "p-1-2", "2-1", "pp", "12",
@@ -182,7 +182,7 @@ fn main() {
          string obtained by pairing a '{' with a '}' that is not its own, against an independent \
          recursive-descent expander (a name matches iff some expansion matches it as a pattern in \
          its own right, decided by the real non-brace matcher). (b) every token string <= M over \
-         '{ } , p - 1 2 >= < * [0-9]' against a 22-name pool (expansions are dewey / glob / plain / \
+         '{ } , p - 1 2 >= < * [0-9] [' against a 22-name pool (expansions are dewey / glob / plain / \
          invalid patterns). Non-trivial = balanced patterns with nested groups or several groups.",
     );
     run.assume("the per-expansion verdict is the implementation's own non-brace matcher (whose correctness is C02/C05); only the expansion set is modelled: mc/core/src/model/brace.rs");
@@ -196,7 +196,7 @@ fn main() {
         t.sample(run.seed, s.iter().fold(3u64, |a, x| a * 7 + *x as u64), || json!({"pattern": p}));
     });
 
-    let m = run.pick(5, 7);
+    let m = run.pick(6, 7);
     let pool: Vec<String> = POOL.iter().map(|s| s.to_string()).collect();
     run.bound(format!("(b) all {} token strings of length <= {} over {:?} x {} names", seqs::count(TOK.len(), m), m, TOK, pool.len()));
     // domain: at most 3 '*' per pattern (back-tracking cost is inherent to the notation)
